@@ -1,5 +1,6 @@
 import FimVerif.Proofs.C03
-import FimVerif.Proofs.Lemmas.C02Props
+import FimVerif.Proofs.C02
+import FimVerif.Proofs.Lemmas.C02Rich
 /-! Discharging C02's codec hypothesis `FieldLaw` for the `JSONField` classes from C03's round-trip theorem.
 
 C02's theorems are generic in the value model (`Codecs V P`).  A value model *carries* C03's model of a class when its
@@ -84,5 +85,128 @@ example : readVal (jfModel Gen.Fields.location (fun _ _ => true))
       ((jfModel Gen.Fields.location (fun _ _ => true)).enc Enc.toJson [C03.equator]) = .ok (some C03.equator) :=
   rowLaw_jsonfield _ Gen.Fields.location (by simp [Gen.Fields.all]) _ "Location" (jfCarries _ _ _) _ rfl rfl rfl C03.equator
     (C03.equator_wellTyped Gen.Fields.location rfl rfl (Or.inr rfl)) (by decide)
+
+/-! ## The round trips without the codec hypothesis
+
+For the value model `SliverRich.rich` (values are the objects of C03's / C12's models, stored graph values their parsed
+texts) the hypothesis `FieldLaw` of `props_roundtrip_partial`, `dict_roundtrip_partial`, `graph_roundtrip_partial`
+is a *theorem* for every well-typed value (`WTVal`): plain strings, enum members, ip addresses, every `JSONField`
+class (C03 `lossless`), `Tags` (C03 `tags_roundtrip`), `Gateway` (C03 `gateway_roundtrip`), `PathInfo` / `ERO` (C03
+`pathinfo_roundtrip`, `ero_roundtrip`), `MaintenanceInfo` (C03 `maintenance_roundtrip`), `Delegations` (C12
+`delegations_roundtrip_partial`), the JSON blobs (C03's `jdFromText`: stored verbatim), string tuples and booleans.
+What remains outside Lean: the `json.dumps` / `json.loads` text layer between a stored string and its parsed form
+(`RP`), as in C03 and C12. -/
+open FimVerif.SliverRich
+
+/-- the generated tables pass the extra checks of the lift (always-written rows, the image pair) -/
+theorem rich_rows_ok : tables.all richRowsOK = true := by decide
+
+theorem tables_all_ok : ∀ T ∈ tables, tableOK T = true ∧ rowsOK T = true ∧ richRowsOK T = true := fun T hT =>
+  ⟨List.all_eq_true.mp tables_ok T hT, List.all_eq_true.mp rows_ok T hT, List.all_eq_true.mp rich_rows_ok T hT⟩
+
+/-- **`FieldLaw` discharged**: every typed field map of every kind obeys the codec law -/
+theorem fieldLaw_discharged (R : Params) (T : KindTable) (hT : T ∈ tables) (s : Sliver.Fields RVal) (ht : TypedFields R T s) :
+    FieldLaw (rich R) T s :=
+  let ⟨h1, h2, h3⟩ := tables_all_ok T hT
+  fieldLaw_rich R T h1 h2 h3 s ht
+
+/-- **flat round trip, no codec hypothesis** (`_partial` only through the `FateShared` guard: known findings) -/
+theorem props_roundtrip_typed_partial (R : Params) (T : KindTable) (hT : T ∈ tables) (s : Sliver.Fields RVal)
+    (ht : TypedFields R T s) (hfate : FateShared T s) (hreq : Required T s) :
+    fromProps (rich R) T (toProps (rich R) T s) = .ok (restrict T s) :=
+  props_roundtrip_partial (rich R) T s (tables_all_ok T hT).1 (fieldLaw_discharged R T hT s ht) hfate hreq
+
+/-- **deep dictionary / JSON round trip, no codec hypothesis**: every typed sliver tree of any depth and width -/
+theorem dict_roundtrip_typed_partial (R : Params) (s : Sliver RVal) (h : TypedTree R s) :
+    fromDict (rich R) s.kind (toDict (rich R) s) = .ok (normalize s) :=
+  dict_roundtrip_partial (rich R) s (typed_wf R tables_all_ok s h)
+
+/-- **model-graph round trip, no codec hypothesis** -/
+theorem graph_roundtrip_typed_partial (R : Params) (s : Sliver RVal) (hk : s.kind ≠ "component") (hs : Shaped s)
+    (h : TypedTree R s) (hnd : (idsOf s).Nodup) : graphRoundtrip (P := RP) (rich R) s = .ok (gnorm (rich R) s) :=
+  graph_roundtrip_partial (rich R) s hk hs (typed_wf R tables_all_ok s h) hnd
+
+theorem graph_roundtrip_component_typed_partial (R : Params) (s : Sliver RVal) (hk : s.kind = "component") (hs : Shaped s)
+    (h : TypedTree R s) (hnd : (idsOf s).Nodup) (hp : "c02-parent" ∉ idsOf s) :
+    graphRoundtrip (P := RP) (rich R) s = .ok (gnorm (rich R) s) :=
+  graph_roundtrip_component_partial (rich R) s hk hs (typed_wf R tables_all_ok s h) hnd hp
+
+/-! non-vacuity: a service sliver carrying a name, a type, tags, an ERO and a gateway-free label set, with one interface -/
+
+def exParams : Params := { valid := fun _ _ => true, okTag := fun _ => true, iso := fun s => some s, validJson := fun _ => true }
+
+def exEro : Codec.PathInfo := { type := some .path, payload := .path (.arr [.str "a", .str "b"]) .null, strict := .bool true }
+
+def exTypedIface : Sliver RVal :=
+  .mk "interface" (some "id-i") (fieldsOfList [("name", .str "p1"), ("type", .enum "InterfaceType" "TrunkPort"),
+    ("stitch_node", .bool false), ("user_data", .jdata "UserData" "{\"k\": 1}")]) []
+
+def exTypedService : Sliver RVal :=
+  .mk "service" (some "id-s") (fieldsOfList [("name", .str "svc1"), ("type", .enum "ServiceType" "L2Bridge"),
+    ("stitch_node", .bool false), ("tags", .tags ["blue", "green"]), ("ero", .ero exEro),
+    ("node_map", .tuple ["g", "n"])]) [exTypedIface]
+
+theorem exTypedIface_typed : TypedFields exParams interfaceTable exTypedIface.fields := by
+  apply typedFields_ofList
+  · intro kv hkv f hf hk _
+    simp only [List.mem_cons, List.mem_nil_iff, or_false] at hkv
+    rcases hkv with rfl | rfl | rfl | rfl
+    · have := (by decide : ∀ f ∈ interfaceTable.fromRows, f.key = "name" → f =
+        { key := "name", gprop := "Name", dec := Dec.ident, arg := "", absent := Absent.none, norm := Norm.ident, noneOk := false }) f hf hk
+      subst this; exact ⟨Or.inl (by decide), rfl, by decide⟩
+    · have := (by decide : ∀ f ∈ interfaceTable.fromRows, f.key = "type" → f =
+        { key := "type", gprop := "Type", dec := Dec.typeFromStr, arg := "InterfaceType", absent := Absent.none, norm := Norm.ident, noneOk := true }) f hf hk
+      subst this; exact ⟨Or.inr (by decide), Or.inl rfl, rfl, by decide⟩
+    · have := (by decide : ∀ f ∈ interfaceTable.fromRows, f.key = "stitch_node" → f =
+        { key := "stitch_node", gprop := "StitchNode", dec := Dec.jsonLoads, arg := "", absent := Absent.boolFalse, norm := Norm.ident, noneOk := true }) f hf hk
+      subst this; exact ⟨by decide, rfl⟩
+    · have := (by decide : ∀ f ∈ interfaceTable.fromRows, f.key = "user_data" → f =
+        { key := "user_data", gprop := "UserData", dec := Dec.jsonDataCtor, arg := "UserData", absent := Absent.none, norm := Norm.ident, noneOk := true }) f hf hk
+      subst this; exact ⟨by decide, rfl, rfl, by decide⟩
+  · intro a b ha; simp [fieldsOfList] at ha
+
+theorem exTypedService_typed : TypedFields exParams serviceTable exTypedService.fields := by
+  apply typedFields_ofList
+  · intro kv hkv f hf hk _
+    simp only [List.mem_cons, List.mem_nil_iff, or_false] at hkv
+    rcases hkv with rfl | rfl | rfl | rfl | rfl | rfl
+    · have := (by decide : ∀ f ∈ serviceTable.fromRows, f.key = "name" → f =
+        { key := "name", gprop := "Name", dec := Dec.ident, arg := "", absent := Absent.none, norm := Norm.ident, noneOk := false }) f hf hk
+      subst this; exact ⟨Or.inl (by decide), rfl, by decide⟩
+    · have := (by decide : ∀ f ∈ serviceTable.fromRows, f.key = "type" → f =
+        { key := "type", gprop := "Type", dec := Dec.typeFromStr, arg := "ServiceType", absent := Absent.none, norm := Norm.ident, noneOk := true }) f hf hk
+      subst this; exact ⟨Or.inr (by decide), Or.inl rfl, rfl, by decide⟩
+    · have := (by decide : ∀ f ∈ serviceTable.fromRows, f.key = "stitch_node" → f =
+        { key := "stitch_node", gprop := "StitchNode", dec := Dec.jsonLoads, arg := "", absent := Absent.boolFalse, norm := Norm.ident, noneOk := true }) f hf hk
+      subst this; exact ⟨by decide, rfl⟩
+    · have := (by decide : ∀ f ∈ serviceTable.fromRows, f.key = "tags" → f =
+        { key := "tags", gprop := "Tags", dec := Dec.fromJson, arg := "Tags", absent := Absent.none, norm := Norm.ident, noneOk := true }) f hf hk
+      subst this; exact ⟨by decide, rfl, rfl, fun _ _ => rfl⟩
+    · have := (by decide : ∀ f ∈ serviceTable.fromRows, f.key = "ero" → f =
+        { key := "ero", gprop := "ERO", dec := Dec.fromJson, arg := "ERO", absent := Absent.none, norm := Norm.ident, noneOk := true }) f hf hk
+      subst this; exact ⟨by decide, rfl, rfl, by simp [C03.PIDomain, exEro], true, rfl⟩
+    · have := (by decide : ∀ f ∈ serviceTable.fromRows, f.key = "node_map" → f =
+        { key := "node_map", gprop := "NodeMap", dec := Dec.jsonLoads, arg := "", absent := Absent.none, norm := Norm.tuple, noneOk := true }) f hf hk
+      subst this; exact ⟨by decide, rfl⟩
+  · intro a b ha; simp [fieldsOfList] at ha
+
+
+theorem exTypedService_tree : TypedTree exParams exTypedService := by
+  have hi : TypedTree exParams exTypedIface := by
+    simp only [exTypedIface, TypedTree, TypedKids, List.map_nil, List.nodup_nil, and_true]
+    exact ⟨by rw [show tableOf "interface" = interfaceTable from rfl]; simp [tables], exTypedIface_typed,
+      fateSharedB_sound _ _ (by decide), requiredB_sound _ _ (by decide)⟩
+  simp only [exTypedService, TypedTree, TypedKids, and_true]
+  refine ⟨by rw [show tableOf "service" = serviceTable from rfl]; simp [tables], exTypedService_typed,
+    fateSharedB_sound _ _ (by decide), requiredB_sound _ _ (by decide),
+    ⟨by decide, by decide, hi⟩, by simp⟩
+
+/-- the typed theorems apply to it: both round trips hold with no hypothesis about codecs -/
+example : fromDict (rich exParams) "service" (toDict (rich exParams) exTypedService) = .ok (normalize exTypedService) :=
+  dict_roundtrip_typed_partial exParams exTypedService exTypedService_tree
+
+example : graphRoundtrip (P := RP) (rich exParams) exTypedService = .ok (gnorm (rich exParams) exTypedService) :=
+  graph_roundtrip_typed_partial exParams exTypedService (by decide)
+    (by simp [Shaped, ShapedKids, exTypedService, exTypedIface, Sliver.kind, slotOf]) exTypedService_tree (by decide)
 
 end FimVerif.C02
